@@ -219,4 +219,375 @@ theorem dispatch_arith_r8_imm8 (c : Model.X86.Ctx) (row : Row) (k0 : RegKind) (i
     simp [dispatch, henc, sig3, Op.kind, Op.id, Op.rmSize, Op.immVal, rtypeOf, fix1, fixK, hne']
     simp [fixupGpb, Op.isGp8Hi]
 
+/-! ### class X86Arith: `op r16/r32/r64, imm` - 83 /d ib (sign-extended imm8) and 81 /d iw|id (imm32 sign-extended under REX.W) -/
+
+/-- the opcode word before the form choice: 0x80 with the operand-size prefix / REX.W of the register size -/
+def arithImmBase (e : Entry) : BitVec 32 :=
+  let s := kindSize (e.kinds.getD 0 .none)
+  if s == 2 then 0x80#32 ||| kPP_66 else if s == 8 then 0x80#32 ||| kW else 0x80#32
+
+/-- the immediate as the class passes it on: sign-extended from 32 bits for 32-bit registers -/
+def arithImm1 (e : Entry) (v : BitVec 64) : BitVec 64 := if kindSize (e.kinds.getD 0 .none) == 4 then signExtendInt32 v else v
+
+/-- the monitor's choice between "sign-extended value modulo the operand size" and "plain bytes" for the immediate of a form -/
+def immSignCase (r : Rule) (f3 : FormOp) : Bool := immSignOf f3 == 1 && r.oszEff != 0 && 8 * immBytesOf (immBitsOf f3) < r.oszEff
+
+def entryOkArithImm (e : Entry) : Bool :=
+  match e.rule.ops, e.kinds with
+  | [f0, f3], [k0] =>
+    let s := kindSize k0
+    -- `and r64, immu32` (zero-extending 32-bit form chosen by an encoding option) is a separate path of the class: not covered
+    (k0 == .gpq && immSignOf f3 == 2) ||
+    (e.enc == 0x19 && ((s == 2 || s == 4 || s == 8) && (plainKind k0 && (f0.role == .rm && (f3.role == .imm && (noFix f0 && (formOpMatches e.rule.oszEff f0 (.reg k0 0) &&
+    (!e.rule.immRev &&
+    ((immBitsOf f3 == 8 && (immSignCase e.rule f3 && (e.rule.oszEff == 8 * s && (legRuleDOk e.rule 1 (((arithImmBase e + 3#32) >>> 21) &&& 3#32).toNat (digitOf e).toNat &&
+        legAgreeOk e.rule (arithImmBase e + 3#32))))) ||
+     (immBitsOf f3 == 8 * min s 4 && (immBitsOf f3 != 8 && ((!immSignCase e.rule f3 || (s == 8 && e.rule.oszEff == 64)) &&
+        (legRuleDOk e.rule (min s 4) (((arithImmBase e + 1#32) >>> 21) &&& 3#32).toNat (digitOf e).toNat && legAgreeOk e.rule (arithImmBase e + 1#32))))))))))))))
+  | _, _ => false
+
+theorem arithimm_entries_ok : larithimmChunks.all (fun c => c.all entryOkArithImm) = true := by decide +kernel
+
+/-- every imm8 form of the chunk is a sign-extended one -/
+theorem arithimm8_sign_ok : larithimmChunks.all (fun c => c.all (fun e => match e.rule.ops with | [_, f3] => immBitsOf f3 != 8 || immSignOf f3 == 1 | _ => true)) = true := by decide +kernel
+
+theorem sext32_low (v : BitVec 64) : (signExtendInt32 v).toNat % 2 ^ 32 = v.toNat % 2 ^ 32 := by
+  have h : (signExtendInt32 v).truncate 32 = (v.truncate 32 : BitVec 32) := by simp only [signExtendInt32]; bv_decide
+  have := congrArg BitVec.toNat h
+  simpa [BitVec.truncate, BitVec.toNat_setWidth] using this
+
+theorem leNat_leBytes4 (a : Nat) : leNat (leBytes a 4) = a % 2 ^ 32 := by
+  simp only [leBytes, leNat, BitVec.toNat_ofNat]
+  omega
+
+theorem take_emitImmediate (x : BitVec 64) (n : Nat) : (emitImmediate x n).take n = emitImmediate x n := by
+  have := (imm_le_exact x n).1
+  exact List.take_of_length_le (by omega)
+
+/-- **front_cls_correct, class X86Arith, `op r16/r32/r64, imm8` (83 /d ib, sign-extended)**: ALL registers 0..15, every immediate that the class
+encodes in this form (`isInt8` of the value, after sign-extension from 32 bits for a 32-bit register). -/
+theorem front_cls_correct_arith_imm8s (e : Entry) (ch : List Entry) (hch : ch ∈ larithimmChunks) (he : e ∈ ch)
+    (ctx : Spec.X86.Ctx) (r0 : BitVec 32) (v : BitVec 64) (hm64 : ctx.mode64 = true) (h0 : r0 < 16#32)
+    (h8 : ∀ f3, e.rule.ops[1]? = some f3 → immBitsOf f3 = 8)
+    (himm : ∀ f3, e.rule.ops[1]? = some f3 → formOpMatches e.rule.oszEff f3 (.imm v) = true)
+    (hfit : isInt8of64 (arithImm1 e v) = true) :
+    ∃ bytes k0, e.kinds = [k0] ∧ emitX86R (arithImmBase e + 3#32) 0#32 (digitOf e) r0 (arithImm1 e v) 1 = .ok bytes ∧
+      formOk ctx e.rule [.reg k0 r0.toNat, .imm v] {} bytes = true := by
+  have hok := mem_chunks_ok arithimm_entries_ok e ch hch he
+  unfold entryOkArithImm at hok
+  split at hok
+  · rename_i f0 f3 k0 hops hkinds
+    have hb8 : immBitsOf f3 = 8 := h8 f3 (by rw [hops]; rfl)
+    have m3 : formOpMatches e.rule.oszEff f3 (.imm v) = true := himm f3 (by rw [hops]; rfl)
+    simp only [hb8, Bool.and_eq_true, Bool.or_eq_true, beq_iff_eq, bne_iff_ne, ne_eq, Bool.not_eq_true', decide_eq_true_eq] at hok
+    rcases hok with ⟨hq, h32⟩ | ⟨-, hs, pk, ra, r3, n0, m0, hrev, hcase⟩
+    · exfalso
+      have h1 : immSignOf f3 = 1 := by
+        have hall := mem_chunks_ok arithimm8_sign_ok e ch hch he
+        simp only [hops, hb8] at hall
+        simpa using hall
+      omega
+    · rcases hcase with ⟨-, hsc, hosz, hR, hA⟩ | ⟨hbad, hne, -⟩
+      · obtain ⟨A, hmask⟩ := legAgreeOk_spec _ _ hA
+        have R := legRuleDOk_spec _ _ _ _ hR
+        have hal : alignOps e.rule.oszEff e.rule.ops [.reg k0 r0.toNat, .imm v] = some [(f0, some (.reg k0 r0.toNat)), (f3, some (.imm v))] := by
+          rw [hops]
+          exact alignOps2 _ _ _ _ _ (by rw [formOpMatches_reg_nofix _ _ _ _ n0]; exact m0) m3
+        have hd : digitOf e < 8#32 := by simp only [digitOf]; bv_decide
+        obtain ⟨bytes, hb, hf⟩ := rmImm_formOk ctx e.rule (arithImmBase e + 3#32) (digitOf e) r0 k0 f0 f3 v (arithImm1 e v) 1 hm64 (by simpa using R.hmodes) hmask
+          (plainKind_spec _ pk) hd h0 R A ra (by
+            intro p hp
+            refine immConds_ok ctx e.rule p f3 v r3 (by rw [hb8]; decide) hrev ?_
+            have hsc' : (immSignOf f3 == 1 && e.rule.oszEff != 0 && decide (8 * immBytesOf (immBitsOf f3) < e.rule.oszEff)) = true := by
+              simpa [immSignCase] using hsc
+            rw [hsc', hb8]
+            simp only [↓reduceIte, decide_eq_true_eq, immBytesOf, show (8:Nat) ≤ 8 from Nat.le_refl 8, hp, emitImmediate, List.take, leNat, Nat.mul_zero, Nat.add_zero, Nat.mul_one]
+            obtain ⟨a64, a32, a16⟩ := sext8_mod (arithImm1 e v) hfit
+            simp only [arithImm1, hkinds, List.getD_cons_zero] at a64 a32 a16 hfit ⊢
+            rw [hosz]
+            rcases hs with (hs | hs) | hs <;> rw [hs] at a64 a32 a16 ⊢
+            · simpa using a16
+            · simp only [beq_self_eq_true, ↓reduceIte] at a32 ⊢
+              rw [sext32_low] at a32
+              simpa using a32
+            · simpa using a64) hal
+        exact ⟨bytes, k0, hkinds, hb, hf⟩
+      · exact absurd trivial hne
+  · simp at hok
+
+/-- **front_cls_correct, class X86Arith, `op r16/r32/r64, imm16/imm32` (81 /d iw|id; imm32 sign-extended under REX.W)**: ALL registers 0..15;
+for a 64-bit register the immediate must be representable as a sign-extended imm32 (otherwise the class refuses). The form is used when the
+immediate does not fit the sign-extended imm8 form; the accumulator has its own short form (a separate path of the class). -/
+theorem front_cls_correct_arith_imm (e : Entry) (ch : List Entry) (hch : ch ∈ larithimmChunks) (he : e ∈ ch)
+    (ctx : Spec.X86.Ctx) (r0 : BitVec 32) (v : BitVec 64) (hm64 : ctx.mode64 = true) (h0 : r0 < 16#32)
+    (hn8 : ∀ f3, e.rule.ops[1]? = some f3 → immBitsOf f3 ≠ 8)
+    (hnz : ∀ f3, e.rule.ops[1]? = some f3 → ¬ (e.kinds = [.gpq] ∧ immSignOf f3 = 2))
+    (himm : ∀ f3, e.rule.ops[1]? = some f3 → formOpMatches e.rule.oszEff f3 (.imm v) = true)
+    (hfit : kindSize (e.kinds.getD 0 .none) = 8 → isInt32of64 v = true) :
+    ∃ bytes k0, e.kinds = [k0] ∧
+      emitX86R (arithImmBase e + 1#32) 0#32 (digitOf e) r0 (arithImm1 e v) (min (kindSize k0) 4) = .ok bytes ∧
+      formOk ctx e.rule [.reg k0 r0.toNat, .imm v] {} bytes = true := by
+  have hok := mem_chunks_ok arithimm_entries_ok e ch hch he
+  unfold entryOkArithImm at hok
+  split at hok
+  · rename_i f0 f3 k0 hops hkinds
+    have hb8 : immBitsOf f3 ≠ 8 := hn8 f3 (by rw [hops]; rfl)
+    have hz := hnz f3 (by rw [hops]; rfl)
+    have m3 : formOpMatches e.rule.oszEff f3 (.imm v) = true := himm f3 (by rw [hops]; rfl)
+    simp only [Bool.and_eq_true, Bool.or_eq_true, beq_iff_eq, bne_iff_ne, ne_eq, Bool.not_eq_true', decide_eq_true_eq] at hok
+    rcases hok with ⟨hq, h32⟩ | ⟨-, hs, pk, ra, r3, n0, m0, hrev, hcase⟩
+    · exact absurd ⟨by rw [hkinds, hq], h32⟩ hz
+    · rcases hcase with ⟨h8', -⟩ | ⟨hnb, -, hscase, hR, hA⟩
+      · exact absurd h8' hb8
+      · obtain ⟨A, hmask⟩ := legAgreeOk_spec _ _ hA
+        have R := legRuleDOk_spec _ _ _ _ hR
+        have hal : alignOps e.rule.oszEff e.rule.ops [.reg k0 r0.toNat, .imm v] = some [(f0, some (.reg k0 r0.toNat)), (f3, some (.imm v))] := by
+          rw [hops]
+          exact alignOps2 _ _ _ _ _ (by rw [formOpMatches_reg_nofix _ _ _ _ n0]; exact m0) m3
+        have hd : digitOf e < 8#32 := by simp only [digitOf]; bv_decide
+        have hfit' : kindSize k0 = 8 → isInt32of64 v = true := by simpa [hkinds] using hfit
+        have hn : immBytesOf (immBitsOf f3) = min (kindSize k0) 4 := by
+          rw [hnb]; rcases hs with (hs | hs) | hs <;> rw [hs] <;> decide
+        have hn4 : immBitsOf f3 ≠ 4 := by rw [hnb]; rcases hs with (hs | hs) | hs <;> rw [hs] <;> decide
+        obtain ⟨bytes, hb, hf⟩ := rmImm_formOk ctx e.rule (arithImmBase e + 1#32) (digitOf e) r0 k0 f0 f3 v (arithImm1 e v) (min (kindSize k0) 4) hm64
+          (by simpa using R.hmodes) hmask (plainKind_spec _ pk) hd h0 R A ra (by
+            intro p hp
+            refine immConds_ok ctx e.rule p f3 v r3 hn4 hrev ?_
+            rw [hn, hp, take_emitImmediate]
+            have hsc : (immSignOf f3 == 1 && e.rule.oszEff != 0 && decide (8 * min (kindSize k0) 4 < e.rule.oszEff)) = immSignCase e.rule f3 := by
+              simp [immSignCase, hn]
+            rw [hsc]
+            rcases hscase with hsf | ⟨hs8, hosz⟩
+            · -- plain bytes
+              rw [hsf]
+              simp only [Bool.false_eq_true, ↓reduceIte, beq_iff_eq]
+              simp only [arithImm1, hkinds, List.getD_cons_zero]
+              rcases hs with (hs | hs) | hs <;> rw [hs]
+              · simp [emitImmediate_leBytes]
+              · simp only [beq_self_eq_true, ↓reduceIte, show min 4 4 = 4 from rfl]
+                rw [emitImmediate_sext32, emitImmediate_leBytes]
+              · simp [emitImmediate_leBytes]
+            · -- sign-extended imm32 under REX.W (or plain bytes when the monitor's case is the other one)
+              cases hsc2 : immSignCase e.rule f3
+              · simp only [Bool.false_eq_true, ↓reduceIte, beq_iff_eq]
+                simp only [arithImm1, hkinds, List.getD_cons_zero, hs8]
+                simp [emitImmediate_leBytes]
+              · simp only [↓reduceIte, decide_eq_true_eq]
+                simp only [arithImm1, hkinds, List.getD_cons_zero, hs8, hosz]
+                simp only [show ((8:Nat) == 4) = false from rfl, Bool.false_eq_true, ↓reduceIte, show min 8 4 = 4 from rfl]
+                rw [emitImmediate_leBytes, leNat_leBytes4]
+                have := sext32_mod v (hfit' hs8)
+                simpa using this) hal
+        exact ⟨bytes, k0, hkinds, hb, hf⟩
+  · simp at hok
+
+/-- the class switch reaches exactly these emissions for `op reg, imm` with a 16 / 32 / 64-bit register -/
+theorem dispatch_arith_imm (c : Model.X86.Ctx) (row : Row) (k : RegKind) (i : Nat) (v : BitVec 64) (henc : row.encoding = 0x19)
+    (hk : k = .gpw ∨ k = .gpd ∨ k = .gpq)
+    (hfit : k = .gpq → isInt32of64 v = true) :
+    let imm1 := if kindSize k == 4 then signExtendInt32 v else v
+    let opc : BitVec 32 := if kindSize k == 2 then 0x80#32 ||| kPP_66 else if kindSize k == 8 then 0x80#32 ||| kW else 0x80#32
+    (isInt8of64 imm1 = true → dispatch c row 0#32 (.reg (rtypeOf k) i) (.imm v) .none .none =
+        emitX86R (opc + 3#32) 0#32 ((row.mainOp >>> 18) &&& 7#32) (r32 i) imm1 1) ∧
+    (isInt8of64 imm1 = false → r32 i ≠ 0#32 → dispatch c row 0#32 (.reg (rtypeOf k) i) (.imm v) .none .none =
+        emitX86R (opc + 1#32) 0#32 ((row.mainOp >>> 18) &&& 7#32) (r32 i) imm1 (min (kindSize k) 4)) := by
+  intro imm1 opc
+  have hks : kindSize .gpw = 2 ∧ kindSize .gpd = 4 ∧ kindSize .gpq = 8 := by decide
+  rcases hk with h | h | h <;> subst h <;> refine ⟨fun h8 => ?_, fun h8 hr => ?_⟩
+  all_goals first
+    | (have hr' : (r32 i == 0#32) = false := by simpa using hr
+       simp only [imm1, opc, hks.1, hks.2.1, hks.2.2] at h8 ⊢
+       simp at h8
+       simp [dispatch, henc, sig3, Op.kind, Op.id, Op.rmSize, Op.immVal, rtypeOf, h8, hr', oLongForm, hfit, kPP_66, kW])
+    | (simp only [imm1, opc, hks.1, hks.2.1, hks.2.2] at h8 ⊢
+       simp at h8
+       simp [dispatch, henc, sig3, Op.kind, Op.id, Op.rmSize, Op.immVal, rtypeOf, h8, oLongForm, hfit, kPP_66, kW])
+
+/-! ### classes X86Arith / X86Test: accumulator short forms `op al|ax|eax|rax, imm` (`EmitX86Op` with an immediate, no ModRM) -/
+
+/-- the opcode word of the accumulator short form: operand-size prefix / REX.W of the register size, `(digit << 3) | 4|5` (X86Arith) or `A8|A9` (X86Test) -/
+def accOpcOf (enc s : Nat) (d : BitVec 32) : BitVec 32 :=
+  let pw : BitVec 32 := if s == 2 then kPP_66 else if s == 8 then kW else 0#32
+  if enc == 0x19 then pw ||| ((d <<< 3) ||| (if s == 1 then 0x04#32 else 0x05#32))
+  else pw ||| (0xA8#32 + (if s != 1 then 1#32 else 0#32))
+
+def accOpcode (e : Entry) : BitVec 32 := accOpcOf e.enc (kindSize (e.kinds.getD 0 .none)) (digitOf e)
+
+/-- the immediate as the classes pass it on -/
+def accImmOf (enc s : Nat) (v : BitVec 64) : BitVec 64 :=
+  if enc == 0x19 then (if s == 4 then signExtendInt32 v else v) else (if s == 1 then v &&& 0xFF#64 else v)
+
+def entryOkAccImm (e : Entry) : Bool :=
+  match e.rule.ops, e.kinds with
+  | [f0, f3], [k0] =>
+    let s := kindSize k0
+    let r := e.rule
+    let pp := ((accOpcode e >>> 21) &&& 3#32).toNat
+    -- `and rax, immu32` (the zero-extending 32-bit form) is a separate path of the class: not covered
+    (k0 == .gpq && immSignOf f3 == 2) ||
+    ((e.enc == 0x19 || (e.enc == 0x3D && e.altOp &&& 0x8200000#32 == 0#32)) && ((s == 1 || s == 2 || s == 4 || s == 8) && (f0.role == .none && (f3.role == .imm && (formOpMatches r.oszEff f0 (.reg k0 0) &&
+    (!r.immRev && (immBitsOf f3 == 8 * min s 4 && ((!immSignCase r f3 || (s == 8 && r.oszEff == 64)) &&
+    (r.modes &&& 2 != 0 && (r.space == 0 && (r.pp &&& 8 == 0 && (((r.pp &&& 1 != 0 || r.osz == 16) == (pp == 1)) && (((r.pp &&& 2 != 0) == (pp == 2)) &&
+    (((r.pp &&& 4 != 0) == (pp == 3)) && (!r.ri && (!r.a67 && (r.modKind == 0 && (r.immBytes == min s 4 && (r.relBytes == 0 && (!r.moff &&
+    legAgreeOk r (accOpcode e)))))))))))))))))))))
+  | _, _ => false
+
+theorem accimm_entries_ok : laccimmChunks.all (fun c => c.all entryOkAccImm) = true := by decide +kernel
+
+theorem emitImmediate_and8 (v : BitVec 64) : emitImmediate (v &&& 0xFF#64) 1 = emitImmediate v 1 := by
+  simp only [emitImmediate]
+  have : BitVec.truncate 8 (v &&& 0xFF#64) = BitVec.truncate 8 v := by bv_decide
+  rw [this]
+
+/-- the immediate bytes of the short form are the low bytes of the operand value -/
+theorem accImm_bytes (enc s : Nat) (v : BitVec 64) (hs : s = 1 ∨ s = 2 ∨ s = 4 ∨ s = 8) :
+    emitImmediate (accImmOf enc s v) (min s 4) = leBytes v.toNat (min s 4) := by
+  rw [← emitImmediate_leBytes]
+  unfold accImmOf
+  rcases hs with h | h | h | h <;> subst h <;> split <;> simp [emitImmediate_sext32, emitImmediate_and8]
+
+/-- **front_cls_correct, classes X86Arith / X86Test, accumulator short forms** `op al, imm8` (04+8d ib / A8 ib), `op ax|eax, imm16|imm32`
+(05+8d iw|id / A9 iw|id) and `op rax, imm32` (REX.W, sign-extended; the immediate must be representable): every immediate value. -/
+theorem front_cls_correct_acc_imm (e : Entry) (ch : List Entry) (hch : ch ∈ laccimmChunks) (he : e ∈ ch)
+    (ctx : Spec.X86.Ctx) (v : BitVec 64) (hm64 : ctx.mode64 = true)
+    (hnz : ∀ f3, e.rule.ops[1]? = some f3 → ¬ (e.kinds = [.gpq] ∧ immSignOf f3 = 2))
+    (himm : ∀ f3, e.rule.ops[1]? = some f3 → formOpMatches e.rule.oszEff f3 (.imm v) = true)
+    (hfit : kindSize (e.kinds.getD 0 .none) = 8 → isInt32of64 v = true) :
+    ∃ bytes k0, e.kinds = [k0] ∧
+      emitX86Op (accOpcode e) 0#32 (accImmOf e.enc (kindSize k0) v) (min (kindSize k0) 4) = .ok bytes ∧
+      formOk ctx e.rule [.reg k0 0, .imm v] {} bytes = true := by
+  have hok := mem_chunks_ok accimm_entries_ok e ch hch he
+  unfold entryOkAccImm at hok
+  split at hok
+  · rename_i f0 f3 k0 hops hkinds
+    have hz := hnz f3 (by rw [hops]; rfl)
+    have m3 : formOpMatches e.rule.oszEff f3 (.imm v) = true := himm f3 (by rw [hops]; rfl)
+    simp only [Bool.and_eq_true, Bool.or_eq_true, beq_iff_eq, bne_iff_ne, ne_eq, Bool.not_eq_true', decide_eq_true_eq] at hok
+    rcases hok with ⟨hq, h32⟩ | ⟨-, hs, r0, r3, m0, hrev, hnb, hscase, hmodes, hsp, hpp8, h66, hF3, hF2, hri, ha67, hmk, hib, hrel, hmoff, hA⟩
+    · exact absurd ⟨by rw [hkinds, hq], h32⟩ hz
+    · obtain ⟨A, hmask⟩ := legAgreeOk_spec _ _ hA
+      have hs' : kindSize k0 = 1 ∨ kindSize k0 = 2 ∨ kindSize k0 = 4 ∨ kindSize k0 = 8 := by omega
+      have hal : alignOps e.rule.oszEff e.rule.ops [.reg k0 0, .imm v] = some [(f0, some (.reg k0 0)), (f3, some (.imm v))] := by
+        rw [hops]
+        exact alignOps2 _ _ _ _ _ m0 m3
+      have hfit' : kindSize k0 = 8 → isInt32of64 v = true := by simpa [hkinds] using hfit
+      have hn : immBytesOf (immBitsOf f3) = min (kindSize k0) 4 := by
+        rw [hnb]; rcases hs' with hs | hs | hs | hs <;> rw [hs] <;> decide
+      have hn4 : immBitsOf f3 ≠ 4 := by rw [hnb]; rcases hs' with hs | hs | hs | hs <;> rw [hs] <;> decide
+      obtain ⟨bytes, hb, hf⟩ := accImm_formOk ctx e.rule (accOpcode e) k0 f0 f3 0 v (accImmOf e.enc (kindSize k0) v) (min (kindSize k0) 4) hm64
+        (by simpa using hmodes) hmask hsp hpp8 (by simpa using h66) (by simpa using hF3) (by simpa using hF2) hri ha67 hmk hib hrel hmoff A r0 (by
+          intro p hp
+          refine immConds_ok ctx e.rule p f3 v r3 hn4 hrev ?_
+          rw [hn, hp, take_emitImmediate, accImm_bytes _ _ _ hs']
+          have hsc : (immSignOf f3 == 1 && e.rule.oszEff != 0 && decide (8 * min (kindSize k0) 4 < e.rule.oszEff)) = immSignCase e.rule f3 := by
+            simp [immSignCase, hn]
+          rw [hsc]
+          rcases hscase with hsf | ⟨hs8, hosz⟩
+          · rw [hsf]; simp
+          · cases hsc2 : immSignCase e.rule f3
+            · simp
+            · simp only [↓reduceIte, decide_eq_true_eq]
+              simp only [hs8, hosz, show min 8 4 = 4 from rfl]
+              rw [leNat_leBytes4]
+              have := sext32_mod v (hfit' hs8)
+              simpa using this) hal
+      exact ⟨bytes, k0, hkinds, hb, hf⟩
+  · simp at hok
+
+/-- the class switch reaches exactly these emissions for `op acc, imm` (no encoding options): X86Arith with AL always, with AX / EAX / RAX when
+the immediate does not fit the sign-extended imm8 form (which is shorter and preferred) -/
+theorem dispatch_arith_acc (c : Model.X86.Ctx) (row : Row) (k : RegKind) (v : BitVec 64) (henc : row.encoding = 0x19)
+    (hk : k = .gpb ∨ k = .gpw ∨ k = .gpd ∨ k = .gpq)
+    (hfit : k = .gpq → isInt32of64 v = true)
+    (hn8 : k ≠ .gpb → isInt8of64 (accImmOf 0x19 (kindSize k) v) = false) :
+    dispatch c row 0#32 (.reg (rtypeOf k) 0) (.imm v) .none .none =
+      emitX86Op (accOpcOf 0x19 (kindSize k) ((row.mainOp >>> 18) &&& 7#32)) 0#32 (accImmOf 0x19 (kindSize k) v) (min (kindSize k) 4) := by
+  have hks : kindSize .gpb = 1 ∧ kindSize .gpw = 2 ∧ kindSize .gpd = 4 ∧ kindSize .gpq = 8 := by decide
+  rcases hk with h | h | h | h <;> subst h
+  · simp [dispatch, henc, sig3, Op.kind, Op.id, Op.rmSize, Op.immVal, rtypeOf, hks.1, accOpcOf, accImmOf, fixupGpb, Op.isGp8Hi, oLongForm, r32, kPP_66, kW]
+  all_goals
+    (have h8 := hn8 (by decide)
+     simp only [accImmOf, hks.2.1, hks.2.2.1, hks.2.2.2] at h8 ⊢
+     simp at h8
+     simp [dispatch, henc, sig3, Op.kind, Op.id, Op.rmSize, Op.immVal, rtypeOf, h8, accOpcOf, oLongForm, hfit, r32, kPP_66, kW])
+
+/-- class X86Test: `test acc, imm` always takes the short form (`halt`: the alternative opcode of the row carries no prefix / W bits - part of `entryOkAccImm`) -/
+theorem dispatch_test_acc (c : Model.X86.Ctx) (row : Row) (k : RegKind) (v : BitVec 64) (henc : row.encoding = 0x3d)
+    (hk : k = .gpb ∨ k = .gpw ∨ k = .gpd ∨ k = .gpq) (halt : row.altOp &&& 0x8200000#32 = 0#32) :
+    dispatch c row 0#32 (.reg (rtypeOf k) 0) (.imm v) .none .none =
+      emitX86Op (accOpcOf 0x3d (kindSize k) 0#32) 0#32 (accImmOf 0x3d (kindSize k) v) (min (kindSize k) 4) := by
+  have hks : kindSize .gpb = 1 ∧ kindSize .gpw = 2 ∧ kindSize .gpd = 4 ∧ kindSize .gpq = 8 := by decide
+  rcases hk with h | h | h | h <;> subst h <;>
+    simp [dispatch, henc, sig3, Op.kind, Op.id, Op.rmSize, Op.immVal, rtypeOf, hks.1, hks.2.1, hks.2.2.1, hks.2.2.2, accOpcOf, accImmOf, fixupGpb, Op.isGp8Hi,
+      oLongForm, r32, addArithBySize, kPP_66, kW] <;> congr 1 <;> bv_decide
+
+/-! ### class X86Rot: shift / rotate a register by CL (`D2|D3 /d`) or by 1 (`D0|D1 /d`) -/
+
+/-- the form's second operand is the fixed register CL (otherwise it is the implied constant 1) -/
+def clEntry (e : Entry) : Bool :=
+  match e.rule.ops with
+  | [_, f1] => formOpMatches e.rule.oszEff f1 (.reg .gpb 1)
+  | _ => false
+
+/-- the opcode word: main opcode by size (`D0|D1`), `+ 2` for the shift by CL -/
+def rotXOpc (e : Entry) : BitVec 32 :=
+  addArithBySize e.mainOp (kindSize (e.kinds.getD 0 .none)) + (if clEntry e then 2#32 else 0#32)
+
+def entryOkRotX (e : Entry) : Bool :=
+  match e.rule.ops, e.kinds with
+  | [f0, f1], [k0] =>
+    e.enc == 0x37 && (legRuleDOk e.rule 0 ((rotXOpc e >>> 21) &&& 3#32).toNat (digitOf e).toNat && (legAgreeOk e.rule (rotXOpc e) &&
+    (f0.role == .rm && (f1.role == .none && (gpKindOk k0 && (noFix f0 && formOpMatches e.rule.oszEff f0 (.reg k0 0)))))))
+  | _, _ => false
+
+theorem rotx_entries_ok : lrotxChunks.all (fun c => c.all entryOkRotX) = true := by decide +kernel
+
+/-- **front_cls_correct, class X86Rot, `op reg, cl` and `op reg, 1`** (rol / ror / rcl / rcr / shl / shr / sar): ALL registers of ALL sizes
+including AH..BH and SPL..DIL; the second operand is whatever the form's fixed operand admits (the register CL, resp. the constant 1) and is
+not encoded. -/
+theorem front_cls_correct_rot_x (e : Entry) (ch : List Entry) (hch : ch ∈ lrotxChunks) (he : e ∈ ch)
+    (ctx : Spec.X86.Ctx) (r0 : BitVec 32) (o1 : Operand) (imm : BitVec 64) (hm64 : ctx.mode64 = true) (h0 : r0 < 16#32)
+    (hhi : ∀ k0, e.kinds = [k0] → k0 = .gpbhi → r0 < 4#32)
+    (ho1 : (∃ v, o1 = .imm v) ∨ (∃ k i, o1 = .reg k i))
+    (hm1 : ∀ f1, e.rule.ops[1]? = some f1 → formOpMatches e.rule.oszEff f1 o1 = true)
+    (bytes : List (BitVec 8)) :
+    ∃ k0, e.kinds = [k0] ∧
+      (emitX86R (rotXOpc e) (fix1 k0 r0).1 (digitOf e) (fix1 k0 r0).2 imm 0 = .ok bytes →
+        formOk ctx e.rule [.reg k0 r0.toNat, o1] {} bytes = true) := by
+  have hok := mem_chunks_ok rotx_entries_ok e ch hch he
+  unfold entryOkRotX at hok
+  split at hok
+  · rename_i f0 f1 k0 hops hkinds
+    simp only [Bool.and_eq_true, beq_iff_eq, Bool.not_eq_true'] at hok
+    obtain ⟨-, hR, hA, ra, r1, hk, n0, m0⟩ := hok
+    obtain ⟨A, hmask⟩ := legAgreeOk_spec _ _ hA
+    have R := legRuleDOk_spec _ _ _ _ hR
+    have m1 : formOpMatches e.rule.oszEff f1 o1 = true := hm1 f1 (by rw [hops]; rfl)
+    have hal : alignOps e.rule.oszEff e.rule.ops [.reg k0 r0.toNat, o1] = some [(f0, some (.reg k0 r0.toNat)), (f1, some o1)] := by
+      rw [hops]
+      exact alignOps2 _ _ _ _ _ (by rw [formOpMatches_reg_nofix _ _ _ _ n0]; exact m0) m1
+    refine ⟨k0, hkinds, ?_⟩
+    intro hb
+    have hd : digitOf e < 8#32 := by simp only [digitOf]; bv_decide
+    exact rmAny_formOk ctx e.rule (rotXOpc e) (digitOf e) r0 k0 f0 f1 o1 imm 0 hm64 (by simpa using R.hmodes) hmask (gpKindOk_spec _ hk) hd h0
+      (hhi k0 hkinds) R A ra ho1 (by intro p _; simp [opConds, r1, allOk]) hal bytes hb
+  · simp at hok
+
+/-- the class switch reaches exactly this emission for `op reg, cl` -/
+theorem dispatch_rot_cl (c : Model.X86.Ctx) (row : Row) (k0 : RegKind) (i0 : Nat) (henc : row.encoding = 0x37)
+    (hk : k0 = .gpb ∨ k0 = .gpbhi ∨ k0 = .gpw ∨ k0 = .gpd ∨ k0 = .gpq) :
+    dispatch c row 0#32 (.reg (rtypeOf k0) i0) (.reg (rtypeOf .gpb) 1) .none .none =
+      emitX86R (addArithBySize row.mainOp (kindSize k0) + 2#32) (fix1 k0 (r32 i0)).1 ((row.mainOp >>> 18) &&& 7#32) (fix1 k0 (r32 i0)).2 0 0 := by
+  rcases hk with h | h | h | h | h <;> subst h <;>
+    simp [dispatch, henc, sig3, Op.kind, Op.id, Op.rmSize, Op.immVal, rtypeOf, kindSize, fix1, fixK, fixupGpb, Op.isGp8Hi]
+
+/-- the class switch reaches exactly this emission for `op reg, imm` with (imm & 0xFF) = 1 (no encoding options): the short shift-by-1 form,
+no immediate byte -/
+theorem dispatch_rot_1 (c : Model.X86.Ctx) (row : Row) (k0 : RegKind) (i0 : Nat) (imm : BitVec 64) (henc : row.encoding = 0x37)
+    (hk : k0 = .gpb ∨ k0 = .gpbhi ∨ k0 = .gpw ∨ k0 = .gpd ∨ k0 = .gpq) (h1 : imm &&& 0xFF#64 = 1#64) :
+    dispatch c row 0#32 (.reg (rtypeOf k0) i0) (.imm imm) .none .none =
+      emitX86R (addArithBySize row.mainOp (kindSize k0)) (fix1 k0 (r32 i0)).1 ((row.mainOp >>> 18) &&& 7#32) (fix1 k0 (r32 i0)).2 (imm &&& 0xFF#64) 0 := by
+  rcases hk with h | h | h | h | h <;> subst h <;>
+    simp [dispatch, henc, sig3, Op.kind, Op.id, Op.rmSize, Op.immVal, rtypeOf, kindSize, fix1, fixK, fixupGpb, Op.isGp8Hi, h1, oLongForm]
+
 end AsmjitVerif.Props.C01
